@@ -232,36 +232,41 @@ namespace embedded_pairing::wkdibe {
         int x = 0;
         for (int i = 0; i != parent.l; i++) {
             int idx = parent.b[i].idx;
-            while (j != from.length && from.attrs[j].idx < idx && !from.attrs[j].omitFromKeys) {
+            while (j != from.length && from.attrs[j].idx < idx) {
                 j++;
             }
-            while (k != to.length && to.attrs[k].idx < idx && !to.attrs[k].omitFromKeys) {
+            while (k != to.length && to.attrs[k].idx < idx) {
                 k++;
             }
 
-            bool sub_from = (j != from.length && from.attrs[j].idx == idx);
-            bool add_to = (k != to.length && to.attrs[k].idx == idx);
+            bool in_from = (j != from.length && from.attrs[j].idx == idx);
+            bool in_to = (k != to.length && to.attrs[k].idx == idx);
 
-            if (j != from.length || k != to.length) {
-                if (sub_from && add_to) {
-                    if (!ID::equal(from.attrs[j].id, to.attrs[k].id)) {
-                        if (diff.subtract(to.attrs[k].id, from.attrs[j].id)) {
-                            diff.add(diff, group_order);
-                        }
-                        temp.multiply(parent.b[i].hexp, diff);
-                        sk.a0.add(sk.a0, temp);
+            /*
+             * A hidden (omitFromKeys) entry takes the slot away from the key,
+             * but contributes no exponent to a0.
+             */
+            bool sub_from = in_from && !from.attrs[j].omitFromKeys;
+            bool add_to = in_to && !to.attrs[k].omitFromKeys;
+
+            if (sub_from && add_to) {
+                if (!ID::equal(from.attrs[j].id, to.attrs[k].id)) {
+                    if (diff.subtract(to.attrs[k].id, from.attrs[j].id)) {
+                        diff.add(diff, group_order);
                     }
-                } else if (sub_from) {
-                    diff.subtract(group_order, from.attrs[j].id);
                     temp.multiply(parent.b[i].hexp, diff);
                     sk.a0.add(sk.a0, temp);
-                } else if (add_to) {
-                    temp.multiply(parent.b[i].hexp, to.attrs[k].id);
-                    sk.a0.add(sk.a0, temp);
                 }
+            } else if (sub_from) {
+                diff.subtract(group_order, from.attrs[j].id);
+                temp.multiply(parent.b[i].hexp, diff);
+                sk.a0.add(sk.a0, temp);
+            } else if (add_to) {
+                temp.multiply(parent.b[i].hexp, to.attrs[k].id);
+                sk.a0.add(sk.a0, temp);
             }
 
-            if (!add_to) {
+            if (!in_to && !to.omitAllFromKeysUnlessPresent) {
                 sk.b[x].idx = parent.b[i].idx;
                 sk.b[x].hexp.copy(parent.b[i].hexp);
                 x++;
